@@ -1,5 +1,5 @@
-CONSTANT Widths = {"std"}
-CONSTANT Heavy = {}
+CONSTANT Widths = {"std", "wide", "narrow"}
+CONSTANT Heavy = {65535, 65536, 65541, 131072}
 INIT Init
 NEXT Next
 INVARIANT RowsOrdered
